@@ -68,6 +68,9 @@ def dominating_edges(tr, body, site_bb, _depth=0):
     ck = ("domedges", site_bb)
     if ck in body._cache:
         return body._cache[ck]
+    if not g.live(site_bb):
+        body._cache[ck] = []
+        return []          # a dead site is dominated by everything: report nothing rather than nonsense
     out = []
     for bb in range(g.n):
         sw = g.switch(bb)
@@ -428,7 +431,13 @@ def ret_assigns(tr, body):
             if s["k"] == "assign" and s["lhs"]["l"] == 0 and not s["lhs"]["p"]:
                 rv = s["rv"]
                 if rv["k"] == "use":
-                    out.append((i, j, tr.expand(tr.operand(body, rv["op"], (i, j)))))
+                    sites = _value_sites(tr, body, rv["op"], (i, j))
+                    if sites is not None and len(sites) > 1:
+                        # `let r = if .. { a } else { b }; r`: one entry per place where the value is produced, so that
+                        # guards are looked for where they apply
+                        out += sites
+                    else:
+                        out.append((i, j, tr.expand(tr.operand(body, rv["op"], (i, j)))))
                 elif rv["k"] == "agg":
                     out.append((i, j, ("agg", body.crate.name, body.def_, i, j)))
                 else:
@@ -436,6 +445,32 @@ def ret_assigns(tr, body):
         t = blk["term"]
         if t["k"] == "call" and t["dest"]["l"] == 0 and not t["dest"]["p"]:
             out.append((i, len(blk["stmts"]), ("call", body.crate.name, body.def_, i)))
+    return out
+
+
+def _value_sites(tr, body, op, loc, depth=0):
+    """[(bb, idx, node)] of the whole-local definitions a copied/moved local's value comes from, following
+    local-to-local copies; None when the operand is not a plain local or a definition is partial"""
+    pl = op.get("copy") or op.get("move")
+    if pl is None or pl["p"]:
+        return None
+    g = graph(body)
+    out = []
+    for d in g.reaching(pl["l"], loc):
+        (_l, bb, idx, kind, proj, data, _n) = d
+        if proj or kind not in ("assign", "call"):
+            return None
+        if kind == "assign" and data["k"] == "use" and depth < 6:
+            sub = _value_sites(tr, body, data["op"], (bb, idx), depth + 1)
+            if sub is not None:
+                out += sub
+                continue
+        if kind == "assign" and data["k"] == "agg":
+            out.append((bb, idx, ("agg", body.crate.name, body.def_, bb, idx)))
+        elif kind == "call":
+            out.append((bb, idx, ("call", body.crate.name, body.def_, bb)))
+        else:
+            out.append((bb, idx, tr.expand(tr._defnode(body, g, d, 0))))
     return out
 
 
